@@ -115,10 +115,15 @@ def rare_values(repo, chk):
             site = fn.site(u['node'])
             shown = ast.unparse(u['node'])
             cols_ok = len(chain) == 2 and chain[0] in (E(f'{frame}.columns'), E(frame), E(f'list({frame}.columns)'))
-            vals_ok = len(chain) == 2 and chain[1] in [expected_term(m, f'{frame}[C]{sfx}', {'C': L0}) for sfx in ('.values', '', '.values.tolist()', '.tolist()', '.to_numpy()')]
+            val_forms = [expected_term(m, f'{frame}[C]{sfx}', {'C': L0}) for sfx in ('.values', '', '.values.tolist()', '.tolist()', '.to_numpy()')]
+            vals_ok = len(chain) == 2 and chain[1] in val_forms
+            # the batch counted once per distinct value: for value, n in Counter(column values).items(): store[(column, value)] += n
+            counted = len(chain) == 2 and chain[1][0] == 'call' and chain[1][1][0] == 'attr' and chain[1][1][2] == 'items' and not chain[1][2] and chain[1][1][1][0] == 'call' \
+                and chain[1][1][1][1] == ('lib', 'collections.Counter') and len(chain[1][1][1][2]) == 1 and chain[1][1][1][2][0] in val_forms
+            vals_ok = vals_ok or counted
             chk.expect(cols_ok and vals_ok, 'C13.1c', 'R13', site, ' x '.join(ast.unparse(i)[:50] for _, i, _ in u['chain']), 'every value of every column of the batch is visited once', 'the counting loops must visit every row value of every column exactly once')
             chk.expect(key == ('tuple', L0, L1), 'C13.1a', 'R5', site, shown, 'store key is (column, value)', f'the rare-value store must be keyed by (column, value); found key {show(key)[:100]}')
-            chk.expect(u['op'] == 'inc' and u.get('method') == 'Add' and val == ('num', 1), 'C13.1d', 'R13', site, shown, 'each occurrence counts 1', 'each occurrence must add exactly 1')
+            chk.expect(u['op'] == 'inc' and u.get('method') == 'Add' and (val == ('num', 1) and not counted or counted and val == ('lvar', 1, 1)), 'C13.1d', 'R13', site, shown, 'each occurrence counts 1', 'each occurrence must add exactly 1')
             # guard: the same key is not in the retirement set
             want_guard = ('cmp', 'notin', key, IGN) if key is not None else None
             if guard == want_guard:
@@ -161,7 +166,24 @@ def rare_values(repo, chk):
             site = fn.site(u['node'])
             direct = len(chain) == 1 and chain[0] == E('GLOBAL_RARE_VALUE_STORAGE.items()') and a_ and a_[0] == K
             via_list = len(chain) == 1 and coll_guard(chain[0])[0] and a_ and a_[0] == K
-            chk.expect(direct or via_list, 'C13.1e', 'R5', site, ast.unparse(u['node']), 'retired keys are the keys of the store itself (same shape)', 'keys added to the retirement set must be the keys of the rare-value store (iteration over storage.items())')
+            if direct or via_list:
+                chk.ok('C13.1e', 'R5', site, ast.unparse(u['node']), 'retired keys are the keys of the store itself (same shape)')
+            else:
+                # retirement inside another loop (e.g. while counting): every pair retired there must leave the store there - a removal of the
+                # same key, over the same loops, whenever the pair is retired
+                arg = a_[0] if a_ else None
+                removed = False
+                for u2 in ups:
+                    if u2['op'] == 'del' or (u2['op'] == 'call' and u2['method'] in ('pop', '__delitem__')):
+                        ch2, key2, _v2, g2, a2, tgt2 = _loop_terms(fn, u2)
+                        k2 = key2 if u2['op'] == 'del' else (a2[0] if a2 else None)
+                        if tgt2 == STORE and ch2 == chain and k2 == arg and (g2 == guard or g2 is None):
+                            removed = True
+                if arg is not None and not removed:
+                    chk.bad('C13.2c', 'R13', site, ast.unparse(u['node']), f'a pair is retired (added to the retirement set) under `{show(guard)[:100] if guard else "no condition"}` without being removed from the rare-value store on that path: '
+                            'a count stored for it by an earlier batch stays in the store and is reported as a rare value')
+                else:
+                    chk.unsure('C13.1e', 'R5', site, ast.unparse(u['node']), 'pairs are retired outside a loop over the items of the rare-value store: whether exactly the pairs above the bound are retired is not decided')
             g = guard if direct else (coll_guard(chain[0])[1] if via_list else None)
             if direct or via_list:
                 if g == ('cmp', '<', bound_t, V):
